@@ -351,7 +351,7 @@ func checkDelimiter(c *core.Ctx, rule string) {
 					if st, ok := in.(*ssa.Store); ok && st.Addr == ssa.Value(g) {
 						stores++
 						ev := &an.SeqEval{}
-						if f.Name() == "init" && ev.Eval(st.Val).String() == "'␁'" {
+						if an.NameOf(f) == "init" && ev.Eval(st.Val).String() == "'␁'" {
 							okInit = true
 						}
 					}
